@@ -77,6 +77,10 @@ Spill ==
 -----------------------------------------------------------------------------
 \* C17, header map
 AnswersLikePlainMap == out.ret = out.exp
+\* the same as a property of every step (lets an exhaustive run leave `out` out of its VIEW)
+AnswersStep == out'.ret = out'.exp
+AnswersAlways == [][AnswersStep]_vars
+StateView == <<plain, mem, memv, disk, limit>>
 HoldsExactlyPlain == /\ DOMAIN memv \cup DOMAIN disk = DOMAIN plain
                      /\ \A k \in DOMAIN plain : Held(k) = plain[k]
 MemOK == /\ {mem[i] : i \in 1..Len(mem)} = DOMAIN memv
